@@ -249,6 +249,12 @@ func vcRunC06(t *vcTrial, cfg vc06Cfg) {
 	}
 	// the "block" handler needs one more frame than it saw: top up so that it can return
 	total := func() uint64 { return atomic.LoadUint64(&sent) }
+	if cfg.Mode == vcModePause && cfg.WriteOnPark {
+		// give the plan the chance to place its write before the peer closes
+		for dl := time.Now().Add(100 * time.Millisecond); atomic.LoadInt32(&parkWrites) == 0 && time.Now().Before(dl); {
+			time.Sleep(50 * time.Microsecond)
+		}
+	}
 	if cfg.PeerClose {
 		wmu.Lock()
 		cliClosed = true
